@@ -52,6 +52,7 @@ def run(prog, chk):
     element_split_table(prog, chk)
     work_buffer_rule(prog, chk)
     memreadn_table(prog, chk)
+    reencode_table(prog, chk)
     refused_mutation(prog, chk)
     _run(prog, chk)
 
@@ -582,3 +583,63 @@ def memreadn_table(prog, chk):
             ok = q.ret != 0
             what = "expected an error (the buffer ends with %d octet(s) that are no element); source: status %s, count %s" % (stray, hex(q.ret) if isinstance(q.ret, int) else q.ret, rd)
         chk.ob("C09.readn", inst, ok, what, loc=fn.loc(), fn=fn)
+
+
+def reencode_table(prog, chk):
+    """encodeAsRaw turns a TLV with a nested list back into one raw payload.  The nested elements of a parsed TLV hold pointers INTO the
+    parent's buffer, so the new payload must not be written into that buffer while they are read (an edited list shifts the octets:
+    later elements would be copied from what has already been overwritten).  Evaluated for a TLV that owns a buffer / has none x the
+    payload serializer succeeding / failing: the destination is never the buffer the TLV holds at that moment, the old buffer is
+    released exactly once and only after the nested list, a failure leaves the TLV as it was."""
+    import itertools
+    from ksirules.interp import TOP, Interp, Ptr, succeed_model
+    chk.rule("C09.reencode", "re-encoding a nested TLV never writes into the buffer its nested elements point into (decision table)", floor=4)
+    fn = prog.fn("encodeAsRaw", "tlv.c")
+    tp = fn.params[0]["n"]
+    for owned, ser_ok, alloc_ok in itertools.product((1, 0), (1, 0), (1, 0)):
+        if not alloc_ok and not ser_ok:
+            continue
+        events = []
+
+        def serialize(I, p, node, args):
+            events.append(("serialize into", args[1], "holding", I.read(p, "T->buffer"), "nested", I.read(p, "T->nested")))
+            if not ser_ok:
+                return 0x104
+            a2 = strip(node["a"][2])
+            if isinstance(a2, dict) and a2.get("k") == "un":
+                I.write(p, lvalue_key(a2["e"], I.fn), 12)
+            return 0
+        asked = []
+
+        def alloc(I, p, node, args):
+            asked.append(1)
+            return Ptr("NEWBUF") if alloc_ok else 0
+        ov = {"KSI_TLV_serializePayload": serialize, "KSI_calloc": alloc, "KSI_malloc": alloc,
+              "KSI_free": lambda I, p, n, a: ((events.append(("free", a[0])) if a[0] != 0 else None), TOP)[1],
+              "KSI_TLVList_free": lambda I, p, n, a: ((events.append(("free list", a[0])) if a[0] != 0 else None), TOP)[1]}
+        inputs = {tp: Ptr("T"), "T->ctx": Ptr("ctx"), "T->nested": Ptr("NESTED"), "T->buffer": Ptr("OLDBUF") if owned else 0, "T->buffer_size": 40 if owned else 0,
+                  "T->datap": Ptr("OLDBUF") if owned else 0, "T->datap_len": 10 if owned else 0}
+        I = Interp(fn, inputs=inputs, call_model=succeed_model(prog, ov), on_unknown="stop", prog=prog)
+        paths = I.run()
+        chk.paths += len(paths)
+        inst = "encodeAsRaw[%s, %s%s]" % ("TLV owns the buffer its elements were parsed from" if owned else "TLV without a buffer", "payload serialized" if ser_ok else "serializer fails",
+                                         "" if alloc_ok else ", allocation fails")
+        if len(paths) != 1 or paths[0].undetermined or paths[0].ret is TOP:
+            raise AnalysisBroken("encodeAsRaw: evaluation not determined for %s: %s" % (inst, [q.undetermined[:1] for q in paths]))
+        q = paths[0]
+        sers = [e for e in events if e[0] == "serialize into"]
+        into_own = [e for e in sers if e[1] == e[3] and e[1] != 0]
+        buf, nested, datap = I.read(q, "T->buffer"), I.read(q, "T->nested"), I.read(q, "T->datap")
+        frees = [e[1] for e in events if e[0] == "free"]
+        order = [e[0] for e in events if e[0] in ("free list",) or (e[0] == "free" and e[1] == Ptr("OLDBUF"))]
+        if not alloc_ok and not asked:
+            continue            # this version needs no allocation here: the row does not exist
+        if ser_ok and alloc_ok:
+            ok = q.ret == 0 and not into_own and len(sers) == 1 and buf == Ptr("NEWBUF") and datap == Ptr("NEWBUF") and nested == 0 and frees.count(Ptr("OLDBUF")) == (1 if owned else 0) and \
+                Ptr("NEWBUF") not in frees and (not owned or order == ["free list", "free"])
+            what = "expected KSI_OK, the payload written into a new buffer, the list released and then the old buffer%s; source: status %s, %s, buffer now %s, events %s" % (
+                "" if owned else " (none)", q.ret, sers, buf, [e for e in events if e[0] != "serialize into"])
+        else:
+            ok = q.ret != 0 and not into_own and buf == (Ptr("OLDBUF") if owned else 0) and nested == Ptr("NESTED") and Ptr("OLDBUF") not in frees and not any(e[0] == "free list" for e in events)
+            what = "expected an error and the TLV as it was (its buffer, its list); source: status %s, buffer now %s, list %s, events %s" % (hex(q.ret) if isinstance(q.ret, int) else q.ret, buf, nested, events)
+        chk.ob("C09.reencode", inst, ok, what, loc=fn.loc(), fn=fn, nontrivial=bool(owned))
